@@ -76,6 +76,7 @@ private:
     ReadState state_ = ReadState::Init;
     std::string error_msg_;
     bool reached_eof_chunk = false;
+    bool propdir_chunk_read_ = false;
 
     uint64_t n_verts_read_ = 0;
     uint64_t n_edges_read_ = 0;
